@@ -8,8 +8,10 @@ from demos import build_demos
 
 THEOREMS = ["Parmcb.C11." + t for t in ["c11_gate", "c11_terminates", "c11_valid", "c11_ranks_agree", "c11_pinned_mpi_hangs"]]
 
-def write_file(path, n, E, trailing=True):
-    lines = ["c demo input", "p edge %d %d" % (n, len(E))] + ["e %d %d %s" % (u + 1, v + 1, w) for (u, v, w) in E]
+def write_file(path, n, E, trailing=True, omit_ones=False):
+    # weight 1 may be omitted on an edge line (the reader's default), mixed with weighted lines
+    lines = ["c demo input", "p edge %d %d" % (n, len(E))] + \
+            [("e %d %d" % (u + 1, v + 1)) if (omit_ones and w == 1) else ("e %d %d %s" % (u + 1, v + 1, w)) for (u, v, w) in E]
     open(path, "w").write("\n".join(lines) + ("\n" if trailing else ""))
 
 def make_files(r, tier):
@@ -19,8 +21,8 @@ def make_files(r, tier):
     for i in range(3 if tier == "quick" else 10):
         n, E, tag = random_graph(r, 12)
         while len(E) - n + components(n, E) < 1: n, E, tag = random_graph(r, 12)
-        WE, _ = weights(r, E, r.choice(["unit", "small", "wide"]))
-        p = os.path.join(d, "valid%d.dimacs" % i); write_file(p, n, WE, trailing=(i % 2 == 0))
+        WE, _ = weights(r, E, ["small", "two", "wide"][i % 3])
+        p = os.path.join(d, "valid%d.dimacs" % i); write_file(p, n, WE, trailing=(i % 2 == 0), omit_ones=(i % 3 != 2))
         files.append((p, (0, 0, 0), n, WE))
     base_n, base = 5, [(0, 1, 2), (1, 2, 3), (2, 0, 4), (2, 3, 1), (3, 4, 2), (4, 2, 5)]
     bads = {"loop": (base + [(3, 3, 1)], (1, 0, 0)), "parallel": (base + [(1, 0, 7)], (0, 1, 0)), "zero": (base + [(0, 3, 0)], (0, 0, 1)),
